@@ -51,6 +51,10 @@ type Fix struct {
 	Rebind []func()
 	// Imported: the application behind this fixture is an imported copy (set by SwapTo)
 	Imported bool
+	// Co: fixtures that run the same ops next to this one (C15's shadow chain); a C18 fork of this
+	// fixture exports / imports them as well, so that the package's comparison of the two stays
+	// meaningful on the imported side
+	Co []*Fix
 }
 
 // Restore puts the fixture back on the application and context of a saved copy of itself (package
